@@ -33,7 +33,34 @@ EXPECT = {"_get_spglib_wyckoff_letters_original": ("arr", "O"), "_get_spglib_equ
 SPACE = {"O": "original", "P": "primitive", "C": "conventional"}
 
 
+def unique_arity(rep, M, rid):
+    """`values, positions = np.unique(x, return_index=True)`: the number of unpacked results is 1 + the number of return_* flags that are True (a flag
+    switched off hands the unique *values* to the name that is used as a position mask)"""
+    n = 0
+    for q, d in M.functions().items():
+        if M.parent.get(q) != SA:
+            continue
+        for s2 in ast.walk(d):
+            if not (isinstance(s2, ast.Assign) and isinstance(s2.value, ast.Call) and (M.ext_name(q, s2.value.func) or "") == "numpy.unique"):
+                continue
+            flags = [k for k in s2.value.keywords if k.arg in ("return_index", "return_inverse", "return_counts")]
+            on = sum(1 for k in flags if isinstance(k.value, ast.Constant) and k.value.value is True)
+            if any(not isinstance(k.value, ast.Constant) for k in flags):
+                continue
+            k_targets = len(s2.targets[0].elts) if isinstance(s2.targets[0], (ast.Tuple, ast.List)) else 1
+            n += 1
+            if (k_targets == 1 and on == 0) or (k_targets == 1 + on and on > 0):
+                rep.ok(rid, f"{q.split('.')[-1]}: `{norm(s2)[:60]}` unpacks what np.unique returns")
+            else:
+                rep.violation(rid, f"{q.split('.')[-1]}: `{norm(s2)[:60]}`", f"{k_targets} name(s) are bound to a np.unique call that returns {1 + on} array(s): the name used as the "
+                              "position of each first occurrence receives unique *values* (or the unpacking fails), so atoms are picked by label instead of by position",
+                              M.where(q, s2))
+    if n < 2:
+        raise AnalysisError(f"np.unique calls in SymmetryAnalyzer: {n} recognised (>= 2 confirmed by hand)")
+
+
 def index_spaces(rep, M, rid):
+    unique_arity(rep, M, rid)
     cls = M.cls(SA)
     meth = {f.name: f for f in cls.body if isinstance(f, ast.FunctionDef)}
     ret = {}
